@@ -45,7 +45,7 @@ func (gn *generator) leafRune() *Expr {
 // syntactic nullability used while generating (nonterminal bodies are not known yet: assume nullable)
 func synNullable(e *Expr) bool {
 	switch e.Op {
-	case OpRune:
+	case OpRune, OpKw:
 		return false
 	case OpEmpty, OpOpt, OpMany, OpSepBy, OpNT, OpEnd:
 		return true
@@ -351,7 +351,16 @@ func HiddenLR(r *rand.Rand) *Grammar {
 func TrimSeq(r *rand.Rand) *Grammar {
 	g := New("ab \n", 1)
 	letters := "ab"
-	rn := func() *Expr { return g.Rune(letters[r.Intn(2)]) }
+	// one token in eight is a multi-byte operator whose name the library also uses for nodes of its own ("EOF" is the
+	// token of the end-of-input node, "EMPTY" of the empty match, "SEQ" of sequences): a token is what it matches, not
+	// what it is called
+	kws := []string{"EOF", "EOF", "EMPTY", "SEQ", "NIL", "ba"}
+	rn := func() *Expr {
+		if r.Intn(8) == 0 {
+			return g.Kw(kws[r.Intn(len(kws))])
+		}
+		return g.Rune(letters[r.Intn(2)])
+	}
 	lt := func(e *Expr, mode int) *Expr { w := g.Mk(OpLTrim, e); w.C = byte(mode); return w }
 	rt := func(e *Expr) *Expr { w := g.Mk(OpRTrim, e); w.C = 2; return w }
 	elem := func() *Expr {
@@ -362,6 +371,17 @@ func TrimSeq(r *rand.Rand) *Grammar {
 			first := []*Expr{g.Mk(OpSeqOf, rn(), rn()), rn()}
 			if r.Intn(2) == 0 {
 				first[0], first[1] = first[1], first[0]
+			}
+			if r.Intn(3) == 0 {
+				// terminated by a KEYWORD that may also end the element itself: x KW | (x KW) KW - two paths of one sequence
+				// that both end with a node of that keyword's token
+				kw := kws[r.Intn(len(kws))]
+				x := g.Rune(letters[r.Intn(2)])
+				first = []*Expr{x, g.Mk(OpSeqOf, g.Rune(x.C), g.Kw(kw))}
+				if r.Intn(2) == 0 {
+					first[0], first[1] = first[1], first[0]
+				}
+				return g.Mk(OpSeqOf, g.Mk(OpAny, first...), g.Kw(kw))
 			}
 			term := g.Mk(OpAny, rn(), g.Mk(OpEnd))
 			if r.Intn(2) == 0 {
@@ -415,6 +435,9 @@ func (g *Grammar) Sample(r *rand.Rand, e *Expr, depth int, out *[]byte, maxLen i
 	switch e.Op {
 	case OpRune:
 		*out = append(*out, e.C)
+		return true
+	case OpKw:
+		*out = append(*out, e.S...)
 		return true
 	case OpEmpty, OpEnd:
 		return true
